@@ -313,12 +313,64 @@ def native_domain_check(op, orient_name, axis, side, lk, rev, pf="center", pt=No
     return np.allclose(res[:, 1:] if axis == "X" else res[1:, :], sub[:, 1:] if axis == "X" else sub[1:, :]), res, sub
 
 
+def native_dispatch_replay(op, pf, pt, entry, kind, N=4):
+    """real code, real xarray: Grid.<op> on a two-face grid whose face 0 has the given links (face 1 reciprocates) against
+    the stencil applied to what the real pad() returns"""
+    import warnings
+
+    import numpy as np
+    import xarray as xr
+    import xgcm
+    import xgcm.gridops as ops
+    warnings.simplefilter("ignore")
+    rng = np.random.default_rng(0)
+    tab = {0: {"X": [None, None], "Y": [None, None]}, 1: {"X": [None, None], "Y": [None, None]}}
+    for (a, side), (lk, rev) in entry.items():
+        sa = a if lk == "same" else C05.OTHER[a]
+        s2 = side if rev else 1 - side
+        if tab[1][sa][s2] is not None:
+            continue
+        tab[0][a][side] = (1, sa, rev)
+        tab[1][sa][s2] = (0, a, rev)
+    tab = {f: {a: tuple(v) for a, v in d.items()} for f, d in tab.items()}
+    pos = {"center": "x", "left": "xl", "right": "xr"}
+    xpos = {p: pos[p] for p in dict.fromkeys(("center", pf, pt)) if p in pos}
+    if pf not in pos or pt not in pos:
+        return {"confirmed": False, "text": "shift involves inner/outer (faces must be square): no native replay"}
+    ds = xr.Dataset(coords={**{d: np.arange(N) for d in xpos.values()}, "y": np.arange(N), "yl": np.arange(N), "face": np.arange(2)})
+    g = xgcm.Grid(ds, coords={"X": xpos, "Y": {"center": "y", "left": "yl"}}, periodic=False, boundary={"X": "extend", "Y": "fill"}, face_connections={"face": tab}, autoparse_metadata=False)
+    xd = xpos[pf]
+    text = [f"two faces, table {tab}"]
+    try:
+        if kind is None:
+            da = xr.DataArray(rng.random((2, N, N)), dims=("face", "y", xd))
+            res = getattr(g, op)(da, "X", to=pt)
+            bw = {"X": tuple(getattr(ops, f"{op}_{pf}_to_{pt}").boundary_width["X"])}
+            padded = xgcm.padding.pad(da, g, boundary_width=bw, boundary=None, fill_value=None)
+            axis_dim = xd
+        else:
+            u = xr.DataArray(rng.random((2, N, N)), dims=("face", "y", "xl"))
+            v = xr.DataArray(rng.random((2, N, N)), dims=("face", "yl", "x"))
+            comp, part, axis_dim = (u, v, "xl") if kind == "X" else (v, u, "yl")
+            res = getattr(g, op)({kind: comp}, kind, to="center", other_component={C05.OTHER[kind]: part})
+            padded = xgcm.padding.pad({kind: comp}, g, boundary_width={kind: (0, 1)}, boundary=None, fill_value=None, other_component={C05.OTHER[kind]: part})
+        p = padded.transpose(..., axis_dim).values
+        lo, hi = p[..., :-1], p[..., 1:]
+        want = {"diff": hi - lo, "interp": (lo + hi) / 2, "min": np.minimum(lo, hi), "max": np.maximum(lo, hi)}[op]
+        newdim = [d for d in res.dims if d not in padded.dims][0]
+        got = res.transpose(..., newdim).values
+        if got.shape != want.shape or not np.allclose(got, want):
+            return {"confirmed": True, "text": "\n".join(text + [f"grid.{op} differs from the stencil applied to what pad() returns"])}
+        return {"confirmed": False, "text": "\n".join(text + ["agrees natively"])}
+    except Exception as e:  # noqa
+        return {"confirmed": True, "text": "\n".join(text + [f"real code raised {type(e).__name__}: {e}"])}
+
+
 def replay(ob):
     wit = ob.get("witness") or {}
     if wit.get("part") == "native":
         return {"confirmed": True, "text": f"two-face domain, link {wit['tag']}, neighbour oriented {wit['orientation']}: the face result differs from the undivided result on the real code"}
     if wit.get("part") == "dispatch":
         s = wit["s"]
-        return {"confirmed": True, "text": f"Grid.{s['op']} {s['pf']}->{s['pt']} on a face-connected grid (links {s['entry']}) differs from the stencil applied to pad()'s result "
-                                          f"(symbolic run of the real code; model {wit.get('model')})"}
+        return native_dispatch_replay(s["op"], s["pf"], s["pt"], {(k[0], int(k[1])): tuple(v) for k, v in s["entry"].items()}, None)
     return {"confirmed": False, "text": "lemma over the specification (no code involved)"}
